@@ -2181,6 +2181,7 @@ func areaShape(c *Ctx) {
 	}
 	g.countMismatchFamily()
 	g.layoutFamily()
+	g.layoutSeqFamily()
 	// over-budget rules whose nested insertions produce glyphs that start the same match again
 	// (termination: the progress guard and the EndPos of the outermost match), every run, LAST
 	// among the fixed families because a non-terminating engine ends the run after three time-outs
@@ -3138,6 +3139,106 @@ func (g *shpGen) layoutFamily() {
 					what = "0xFFFF"
 				}
 				g.c.Stat("obligation: Layouter with glyph IDs around NumGlyphs", kind+" via "+via+": "+what)
+			}
+		}
+	}
+}
+
+// ---------------------------------------------------------------- Layouter histories (round 9)
+//
+//   D shape.layoutseq kind=cff|glyf gpos=11|12|4 dx= dy= da= texts=<t1>/<t2>/...
+//   Go: ONE Layouter lays out the texts in turn; every result (GID, Text, XOffset, YOffset, Advance of
+//   every glyph) must equal what a FRESH Layouter returns for the same text: `same` or `differs@k`;
+//   the driver prints `same`.  The GPOS lookups write PLACEMENT offsets (value records with
+//   XPlacement/YPlacement, or a mark attachment), which an engine re-using its buffer could leak.
+
+func shpLayoutSeqFont(f Fields) *sfnt.Font {
+	font := shpLayoutFont(f["kind"])
+	best, err := font.CMapTable.GetBest()
+	if err != nil {
+		panic(err)
+	}
+	gidA, gidB, gidM := best.Lookup('A'), best.Lookup('B'), best.Lookup('M')
+	dx, dy, da := funit.Int16(f.Int("dx")-1000), funit.Int16(f.Int("dy")-1000), funit.Int16(f.Int("da")-1000)
+	var st gtab.Subtable
+	tp := uint16(1)
+	switch f["gpos"] {
+	case "11":
+		st = &gtab.Gpos1_1{Cov: coverage.Table{gidA: 0}, Adjust: &gtab.GposValueRecord{XPlacement: dx, YPlacement: dy, XAdvance: da}}
+	case "12":
+		cov := coverage.Table{gidA: 0, gidB: 1}
+		if gidB < gidA {
+			cov = coverage.Table{gidB: 0, gidA: 1}
+		}
+		adj := make([]*gtab.GposValueRecord, 2)
+		adj[cov[gidA]] = &gtab.GposValueRecord{XPlacement: dx, YPlacement: dy}
+		adj[cov[gidB]] = &gtab.GposValueRecord{XAdvance: da}
+		st = &gtab.Gpos1_2{Cov: cov, Adjust: adj}
+	default: // mark M attached to the base A
+		tp = 4
+		font.Gdef = &gdef.Table{GlyphClass: classdef.Table{gidM: gdef.GlyphClassMark, gidA: gdef.GlyphClassBase}}
+		st = &gtab.Gpos4_1{MarkCov: coverage.Table{gidM: 0}, BaseCov: coverage.Table{gidA: 0},
+			MarkArray: []markarray.Record{{Class: 0, Table: anchor.Table{X: 10, Y: 20}}},
+			BaseArray: [][]anchor.Table{{{X: 300 + dx, Y: 400 + dy}}}}
+	}
+	font.Gpos = &gtab.Info{
+		ScriptList:  map[language.Tag]*gtab.Features{language.MustParse("und-Zzzz"): {Required: 0}},
+		FeatureList: []*gtab.Feature{{Tag: "kern", Lookups: []gtab.LookupIndex{0}}},
+		LookupList:  gtab.LookupList{{Meta: &gtab.LookupMetaInfo{LookupType: tp}, Subtables: []gtab.Subtable{st}}},
+	}
+	return font
+}
+
+func shpShowLayout(seq []glyph.Info) string {
+	var sb strings.Builder
+	for _, g := range seq {
+		fmt.Fprintf(&sb, "%d/%s/%d/%d/%d,", g.GID, string(g.Text), g.XOffset, g.YOffset, g.Advance)
+	}
+	return sb.String()
+}
+
+func init() {
+	ops["shape.layoutseq"] = func(f Fields) string {
+		mk := func() *sfnt.Layouter {
+			l, err := shpLayoutSeqFont(f).NewLayouter(language.Und, nil, map[string]bool{"kern": true})
+			if err != nil {
+				panic(err)
+			}
+			return l
+		}
+		used := mk()
+		for k, t := range strings.Split(f["texts"], "/") {
+			got := shpShowLayout(used.Layout(t))
+			want := shpShowLayout(mk().Layout(t))
+			if got != want {
+				return fmt.Sprintf("differs@%d", k)
+			}
+		}
+		return "same"
+	}
+}
+
+func (g *shpGen) layoutSeqFamily() {
+	r := g.r
+	fixed := [][]string{{"AAA", "B"}, {"AM", "BB"}, {"ABAB", "BABA", "B"}, {"MAMA", "AB", "M", "BBBB"}, {"A", "AAAA", "BB"}}
+	for _, kind := range []string{"cff", "glyf"} {
+		for _, gp := range []string{"11", "12", "4"} {
+			for i := 0; i < 6; i++ {
+				var texts []string
+				if i < len(fixed) {
+					texts = fixed[i]
+				} else {
+					for k, n := 0, r.Range(2, 4); k < n; k++ {
+						t := ""
+						for j, m := 0, r.Range(1, 5); j < m; j++ {
+							t += Pick(r, []string{"A", "A", "B", "M", "C"})
+						}
+						texts = append(texts, t)
+					}
+				}
+				dx, dy, da := 1000+Pick(r, []int{50, -40, 7}), 1000+Pick(r, []int{30, -25, 0}), 1000+Pick(r, []int{0, 15, -20})
+				g.c.Case(Direct, "shape.layoutseq", fmt.Sprintf("kind=%s gpos=%s dx=%d dy=%d da=%d texts=%s", kind, gp, dx, dy, da, strings.Join(texts, "/")), true)
+				g.c.Stat("obligation: histories on one Layouter with GPOS placement offsets", kind+" GPOS "+gp)
 			}
 		}
 	}
